@@ -40,7 +40,7 @@ def strategy(shard):
 def evaluate(case, out):
     cands, winner = case["cands"], case["winner"]
     real = [b for b in case["ballots"] if b is not None]
-    out.cls(f"n={len(cands)}", case["asn"], "hint" if case["order_hint"] else "no-hint")
+    out.cls(f"n={len(cands)}", case["asn"], ("hint" if case["order_hint"][-1] == case["winner"] else "hint-ends-elsewhere") if case["order_hint"] else "no-hint")
     try:
         res, f = run_raire(case, earlier_search=(len(case["ballots"]) % 2 == 0))
         if len(case["ballots"]) % 2 == 0:
